@@ -743,3 +743,94 @@ def mps_bound(rng, v):
     if v == NINF:
         return "-" + rng.choice(["inf", "INF", "infinity"])
     return mps_num(rng, v)
+
+
+# ----------------------------------------------------------------------------- C11: file mutators
+
+PATHOLOGICAL = ["1/0", "/", "1/", "0/0", "1/0.0", "3/0e2", "-/1", "1e9999", "1e-9999", "9" * 400, "0." + "0" * 300 + "1", "++--1", "+-1", ".e.", "e", "1e", "1e+",
+                "1..2", "1/2/3", "--", ".", "inf", "-inf", "infinity", "+INFINITY", "1e5e5", "0x10", "1,5", "NaN", "1/00", "1e00000005", "00000/00001"]
+
+
+def _tokens(text):
+    import re
+    return re.findall(r"\s+|[^\s]+", text)
+
+
+def mutate_tokens(rng, text):
+    """token-level mutation of a text file (str)"""
+    tk = _tokens(text)
+    idx = [i for i, t in enumerate(tk) if not t.isspace()]
+    if not idx:
+        return text
+    k = rng.choice(["swap", "drop", "dup", "literal", "literal", "keyword", "name", "sense", "move", "join"])
+    i = rng.choice(idx)
+    if k == "swap":
+        j = rng.choice(idx)
+        tk[i], tk[j] = tk[j], tk[i]
+    elif k == "drop":
+        tk[i] = ""
+    elif k == "dup":
+        tk[i] = tk[i] + " " + tk[i]
+    elif k == "literal":
+        tk[i] = rng.choice(PATHOLOGICAL)
+    elif k == "keyword":
+        tk[i] = rng.choice(["END", "ST", "BOUNDS", "INTEGER", "MAX", "free", "ROWS", "COLUMNS", "RHS", "RANGES", "ENDATA", "'MARKER'", "'INTORG'", "'SOSORG'",
+                            "S1", "REFROW", "OBJSENSE", "NAME", "UP", "FR", "BV", "N", "Subject To", "PROBLEM"])
+    elif k == "name":
+        tk[i] = rng.choice(["x" * 300, "y" * 5000, "", ":", "::", "a:b:", "<=", ">=<", "=", "\\", "$", "*", "%s%d%n", "\"", "'", "x1", "obj"])
+    elif k == "sense":
+        tk[i] = rng.choice(["<", ">", "=", "=<", "=>", "<>", "==", "<=>"])
+    elif k == "move":
+        t = tk[i]
+        tk[i] = ""
+        tk.insert(rng.randrange(len(tk) + 1), " " + t + " ")
+    elif k == "join":
+        tk[i] = tk[i] + (tk[i + 2] if i + 2 < len(tk) else "x")
+    return "".join(tk)
+
+
+def mutate_bytes(rng, data):
+    """byte-level mutation of file content (bytes)"""
+    b = bytearray(data)
+    k = rng.choice(["flip", "flip", "ins", "del", "ctrl", "nul", "high", "dupline", "delnl", "cr", "longline", "tab"])
+    n = len(b)
+    if n == 0:
+        return bytes([rng.randrange(256)])
+    i = rng.randrange(n)
+    if k == "flip":
+        for _ in range(rng.choice([1, 1, 3, 10])):
+            j = rng.randrange(n)
+            b[j] ^= 1 << rng.randrange(8)
+    elif k == "ins":
+        b[i:i] = bytes(rng.randrange(256) for _ in range(rng.choice([1, 2, 8])))
+    elif k == "del":
+        del b[i:i + rng.choice([1, 2, 10, 50])]
+    elif k == "ctrl":
+        b[i] = rng.choice([1, 7, 8, 11, 12, 27, 127])
+    elif k == "nul":
+        b[i] = 0
+    elif k == "high":
+        b[i] = rng.choice([128, 160, 200, 255])
+    elif k == "dupline":
+        lines = bytes(b).split(b"\n")
+        j = rng.randrange(len(lines))
+        lines.insert(j, lines[j])
+        b = bytearray(b"\n".join(lines))
+    elif k == "delnl":
+        j = bytes(b).find(b"\n", i)
+        if j >= 0:
+            del b[j]
+    elif k == "cr":
+        b = bytearray(bytes(b).replace(b"\n", b"\r\n"))
+    elif k == "longline":
+        b[i:i] = rng.choice([b"x", b" ", b"9", b"x "]) * rng.choice([300, 5000, 70000])
+    elif k == "tab":
+        b = bytearray(bytes(b).replace(b" ", b"\t"))
+    return bytes(b)[:65536]
+
+
+SMALL_LP = "max\n obj: 3 x + 2 y\nst\n c1: x + y <= 4\n c2: x - 1/3 y >= -2\nbounds\n x <= 3\n -1 <= y <= 5.5\nint\n y\nend\n"
+SMALL_LP2 = "Problem p\nMinimize\n 2 a - b\nSubject To\n a + b >= 1 \\ note\n r: a - b = 0\nBounds\n b free\nEnd\n"
+SMALL_MPS = ("NAME t\nROWS\n N obj\n L c1\n G c2\n E c3\nCOLUMNS\n MARKER1 'MARKER' 'INTORG'\n x obj 3 c1 1\n x c2 1\n MARKER2 'MARKER' 'INTEND'\n"
+             " y obj 2 c1 1\n y c2 -1/3 c3 1\nRHS\n RHS c1 4 c2 -2\n RHS c3 1\nRANGES\n RNG c1 2\nBOUNDS\n UP BND x 3\n MI BND y\n UP BND y 5.5\nENDATA\n")
+SMALL_BAS = "NAME t\n XU x c1\n XL y c2\n UL z\nENDATA\n"
